@@ -784,6 +784,13 @@ fn run(case: &Case, ctx: &mut Ctx) {
 }
 
 impl Check for C12 {
+    fn fixed_cases(_tier: Tier, _seed: u64) -> Vec<Case> {
+        // large documents (tens of KiB)
+        [(150usize, 1u64, true, 0u8), (500, 2, false, 2), (1200, 3, true, 4)]
+            .into_iter()
+            .map(|(n, salt, mode11, spaces)| Case { quads: crate::gen::bulk_quads(n, salt, true), mode11, use_rdf_type: false, dir: 0, spaces })
+            .collect()
+    }
     fn stall_secs(_tier: Tier) -> Option<u64> {
         Some(60)
     }
